@@ -33,19 +33,21 @@ func init() { reg.Register(&reg.Prop{ID: "C19", Run: Run, Replay: Replay}) }
 // In is the replayable input: the whole model of one case.
 type In struct {
 	N       int
-	NB      []int   // binaries of source i: 1 or 2
-	Dep     [][]int // Dep[i][j]: 0 none, 1 / 2: source i build-depends on the first / second binary of source j
-	Field   [][]int // which field carries it: 0 Build-Depends, 1 Build-Depends-Arch, 2 Build-Depends-Indep
-	Deco    [][]int // how it is written, index into decos
-	Unknown []int   // per source: 0 none, 1 / 2: a dependency on an unknown package first / last in Build-Depends
-	Fold    []int   // per source: 1 = its build-dependency fields are folded (one relation per continuation line)
-	FoldBin []int   // per source: 1 = Binary: folded onto a continuation line
-	Spread  []int   // per source: 0 = Field decides; 1..4 = its q-th dependency goes to field spreads[Spread][q mod len] (+Field mod 3): several fields used at once
-	Pad     [][]int // per source and field: 0..7 extra relations on packages outside the source set
-	PadKind []int   // per source: what the extra relations look like, index into padKinds
-	Pos     []int   // per source: the real relations come first (0) / in the middle (1) / last (2) among the extra ones
-	Arch    string  // amd64 | i386 | kfreebsd-amd64
-	Perm    []int   // input slice order: position p holds source Perm[p]
+	NB      []int             // binaries of source i: 1 or 2
+	Dep     [][]int           // Dep[i][j]: 0 none, 1 / 2: source i build-depends on the first / second binary of source j
+	Field   [][]int           // which field carries it: 0 Build-Depends, 1 Build-Depends-Arch, 2 Build-Depends-Indep
+	Deco    [][]int           // how it is written, index into decos
+	Unknown []int             // per source: 0 none, 1 / 2: a dependency on an unknown package first / last in Build-Depends
+	Fold    []int             // per source: 1 = its build-dependency fields are folded (one relation per continuation line)
+	FoldBin []int             // per source: 1 = Binary: folded onto a continuation line
+	Spread  []int             // per source: 0 = Field decides; 1..4 = its q-th dependency goes to field spreads[Spread][q mod len] (+Field mod 3): several fields used at once
+	Pad     [][]int           // per source and field: 0..7 extra relations on packages outside the source set
+	PadKind []int             // per source: what the extra relations look like, index into padKinds
+	Pos     []int             // per source: the real relations come first (0) / in the middle (1) / last (2) among the extra ones
+	Arch    string            // amd64 | i386 | kfreebsd-amd64 (or a name the alphabet audit supplied)
+	Alias   map[string]string `json:",omitempty"` // alphabet audit: default name (src-a, bin-a1, otherpkg, zlib1g-dev) -> name used instead, in text AND model
+	Extra   []string          `json:",omitempty"` // alphabet audit: extra unknown fields "Name: value" written into every .dsc
+	Perm    []int             // input slice order: position p holds source Perm[p]
 }
 
 var fieldNames = []string{"Build-Depends", "Build-Depends-Arch", "Build-Depends-Indep"}
@@ -247,8 +249,14 @@ var decos = func() []deco {
 			}
 		}
 	}
+	nStatic = len(d)
+	// alphabet audit: restriction lists built from architecture-like words a change introduced (none on the unchanged tree)
+	d = append(d, auditDecos(seen, name)...)
 	return d
 }()
+
+// nStatic: number of decorations that do not come from the alphabet audit (set while decos is built).
+var nStatic int
 
 func decoNames(n int) []string {
 	var x []string
@@ -260,7 +268,7 @@ func decoNames(n int) []string {
 
 // decorate returns the relation(s) for a dependency on binary b written in style d; t is the first binary of a
 // third source (or thirdPkg).
-func decorate(d int, b, t string) []rel {
+func decorate(d int, b, t, o string) []rel {
 	out := make([]rel, len(decos[d].rels))
 	for k, r := range decos[d].rels {
 		out[k].Alts = append([]alt(nil), r.Alts...)
@@ -270,6 +278,8 @@ func decorate(d int, b, t string) []rel {
 				out[k].Alts[q].Name = b
 			case phT:
 				out[k].Alts[q].Name = t
+			case otherPkg:
+				out[k].Alts[q].Name = o
 			}
 		}
 	}
@@ -280,28 +290,40 @@ func decorate(d int, b, t string) []rel {
 func (in In) third(i, j int) string {
 	for t := 0; t < in.N; t++ {
 		if t != i && t != j {
-			return binName(t, 1)
+			return in.bin(t, 1)
 		}
 	}
-	return thirdPkg
+	return in.al(thirdPkg)
 }
 
 func srcName(i int) string { return "src-" + string(rune('a'+i)) }
 
 func binName(i, k int) string { return fmt.Sprintf("bin-%c%d", 'a'+i, k) }
 
+// al / src / bin: the names actually used (text and model alike) — the defaults unless the audit renamed one.
+func (in In) al(s string) string {
+	if t, ok := in.Alias[s]; ok {
+		return t
+	}
+	return s
+}
+
+func (in In) src(i int) string { return in.al(srcName(i)) }
+
+func (in In) bin(i, k int) string { return in.al(binName(i, k)) }
+
 func (in In) valid() bool {
 	n := in.N
-	if n < 1 || n > 6 || len(in.NB) != n || len(in.Dep) != n || len(in.Field) != n || len(in.Deco) != n ||
+	if n < 1 || n > maxN || len(in.NB) != n || len(in.Dep) != n || len(in.Field) != n || len(in.Deco) != n ||
 		len(in.Unknown) != n || len(in.Fold) != n || len(in.FoldBin) != n || len(in.Perm) != n {
 		return false
 	}
-	if in.Arch != archs[0] && in.Arch != archs[1] && in.Arch != archs[2] {
+	if !archNameOK(in.Arch) {
 		return false
 	}
 	seen := make([]bool, n)
 	for i := 0; i < n; i++ {
-		if in.NB[i] < 1 || in.NB[i] > 2 || len(in.Dep[i]) != n || len(in.Field[i]) != n || len(in.Deco[i]) != n {
+		if in.NB[i] < 1 || in.NB[i] > maxNB || len(in.Dep[i]) != n || len(in.Field[i]) != n || len(in.Deco[i]) != n {
 			return false
 		}
 		if in.Perm[i] < 0 || in.Perm[i] >= n || seen[in.Perm[i]] {
@@ -311,7 +333,7 @@ func (in In) valid() bool {
 		if in.Unknown[i] < 0 || in.Unknown[i] > 2 || in.Fold[i] < 0 || in.Fold[i] > 1 || in.FoldBin[i] < 0 || in.FoldBin[i] > 1 {
 			return false
 		}
-		if in.FoldBin[i] == 1 && in.NB[i] != 2 {
+		if in.FoldBin[i] == 1 && in.NB[i] < 2 {
 			return false
 		}
 	}
@@ -324,7 +346,7 @@ func (in In) valid() bool {
 			return false
 		}
 		for _, p := range in.Pad[i] {
-			if p < 0 || p > 7 {
+			if p < 0 || p > maxPad {
 				return false
 			}
 		}
@@ -343,6 +365,28 @@ func (in In) valid() bool {
 	return true
 }
 
+// Bounds of what an input may contain at all (the enumerated alphabets are far smaller; the alphabet audit may go
+// up to these when a change introduces an integer constant).
+const (
+	maxN   = 8
+	maxNB  = 16
+	maxPad = 64
+)
+
+// archNameOK: a build architecture the model can read: "cpu" or "os-cpu", package-name characters only.
+func archNameOK(s string) bool {
+	if s == "" || len(s) > 40 || strings.Count(s, "-") > 1 || strings.HasPrefix(s, "-") || strings.HasSuffix(s, "-") {
+		return false
+	}
+	for i := 0; i < len(s); i++ {
+		c := s[i]
+		if !(c >= 'a' && c <= 'z' || c >= 'A' && c <= 'Z' || c >= '0' && c <= '9' || c == '-' || c == '.' || c == '+') {
+			return false
+		}
+	}
+	return s != "any" && s != "all"
+}
+
 // spreads[s][q mod len]: the field of a source's q-th dependency (0 Build-Depends, 1 -Arch, 2 -Indep).
 var spreads = [][]int{nil, {1, 2, 0}, {2, 1, 0}, {1, 2}, {2, 1}}
 
@@ -352,6 +396,9 @@ var padKinds = []string{"unknown packages", "mixed: unknown, substvar, not admit
 // model never gets an edge from them; what varies is how many of them the architecture filter lets through.
 func padRel(kind, k, m int) rel {
 	name := fmt.Sprintf("pad%d%c", k, 'a'+m)
+	if m >= 26 {
+		name = fmt.Sprintf("pad%dx%d", k, m)
+	}
 	if kind == 1 {
 		switch m % 5 {
 		case 1:
@@ -370,7 +417,7 @@ func padRel(kind, k, m int) rel {
 // norm fills the dimensions an older artefact does not have with their defaults.
 func (in In) norm() In {
 	n := in.N
-	if n < 1 || n > 6 {
+	if n < 1 || n > maxN {
 		return in
 	}
 	if in.Spread == nil {
@@ -409,10 +456,10 @@ func (in In) fields(i int) [3][]fieldRel {
 			fld = (sp[q%len(sp)] + in.Field[i][j]) % 3
 		}
 		q++
-		for _, r := range decorate(in.Deco[i][j], binName(j, in.Dep[i][j]), in.third(i, j)) {
+		for _, r := range decorate(in.Deco[i][j], in.bin(j, in.Dep[i][j]), in.third(i, j), in.al(otherPkg)) {
 			fr := fieldRel{r, -1, 0}
 			for _, a := range r.Alts {
-				if !a.Subst && a.Name == binName(j, in.Dep[i][j]) {
+				if !a.Subst && a.Name == in.bin(j, in.Dep[i][j]) {
 					fr.j, fr.bin = j, in.Dep[i][j]
 				}
 			}
@@ -443,10 +490,10 @@ func (in In) fields(i int) [3][]fieldRel {
 		f[k] = out
 	}
 	if in.Unknown[i] == 1 {
-		f[0] = append([]fieldRel{{rel{[]alt{{Name: unknownPkg}}}, -1, 0}}, f[0]...)
+		f[0] = append([]fieldRel{{rel{[]alt{{Name: in.al(unknownPkg)}}}, -1, 0}}, f[0]...)
 	}
 	if in.Unknown[i] == 2 {
-		f[0] = append(f[0], fieldRel{rel{[]alt{{Name: unknownPkg}}}, -1, 0})
+		f[0] = append(f[0], fieldRel{rel{[]alt{{Name: in.al(unknownPkg)}}}, -1, 0})
 	}
 	return f
 }
@@ -454,21 +501,38 @@ func (in In) fields(i int) [3][]fieldRel {
 // dscText renders source i as an ordinary .dsc (unsigned).
 func (in In) dscText(i int) string {
 	var b strings.Builder
-	s := srcName(i)
+	s := in.src(i)
 	b.WriteString("Format: 3.0 (quilt)\n")
 	b.WriteString("Source: " + s + "\n")
 	switch {
 	case in.NB[i] == 1:
-		b.WriteString("Binary: " + binName(i, 1) + "\n")
-	case in.FoldBin[i] == 1:
-		b.WriteString("Binary: " + binName(i, 1) + ",\n " + binName(i, 2) + "\n")
+		b.WriteString("Binary: " + in.bin(i, 1) + "\n")
+	case in.NB[i] == 2 && in.FoldBin[i] == 1:
+		b.WriteString("Binary: " + in.bin(i, 1) + ",\n " + in.bin(i, 2) + "\n")
 	default:
-		b.WriteString("Binary: " + binName(i, 1) + ", " + binName(i, 2) + "\n")
+		// longer lists: folded after every second name, the way dpkg-source wraps them
+		b.WriteString("Binary: ")
+		for k := 1; k <= in.NB[i]; k++ {
+			b.WriteString(in.bin(i, k))
+			switch {
+			case k == in.NB[i]:
+				b.WriteString("\n")
+			case in.FoldBin[i] == 1 && k%2 == 0:
+				b.WriteString(",\n ")
+			default:
+				b.WriteString(", ")
+			}
+		}
 	}
 	b.WriteString("Architecture: any\n")
 	b.WriteString("Version: 1.0-1\n")
 	b.WriteString("Maintainer: A B <a@b.example>\n")
 	b.WriteString("Standards-Version: 4.6.2\n")
+	for q, x := range in.Extra {
+		if q%2 == 0 {
+			b.WriteString(x + "\n")
+		}
+	}
 	f := in.fields(i)
 	for k, rels := range f {
 		if len(rels) == 0 {
@@ -498,11 +562,16 @@ func (in In) dscText(i int) string {
 	}
 	b.WriteString("Package-List:\n")
 	for k := 1; k <= in.NB[i]; k++ {
-		b.WriteString(" " + binName(i, k) + " deb misc optional arch=any\n")
+		b.WriteString(" " + in.bin(i, k) + " deb misc optional arch=any\n")
 	}
 	b.WriteString("Files:\n")
 	b.WriteString(" d41d8cd98f00b204e9800998ecf8427e 0 " + s + "_1.0.orig.tar.gz\n")
 	b.WriteString(" d41d8cd98f00b204e9800998ecf8427e 0 " + s + "_1.0-1.debian.tar.xz\n")
+	for q, x := range in.Extra {
+		if q%2 == 1 {
+			b.WriteString(x + "\n")
+		}
+	}
 	return b.String()
 }
 
@@ -543,7 +612,7 @@ func (in In) edgesInto(i int, arch string) []edge {
 					continue
 				}
 				for k := 1; k <= in.NB[j]; k++ {
-					if a.Name == binName(j, k) {
+					if a.Name == in.bin(j, k) {
 						es = append(es, edge{From: j, To: i, Bin: k,
 							FoldedLast: in.Fold[i] == 1 && q == len(rels)-1 && c == len(fr.r.Alts)-1 && a.Ver == "" && len(a.Archs) == 0 && a.Qual == "" && a.Profiles == ""})
 					}
@@ -583,7 +652,7 @@ func cyclic(n int, es []edge) bool {
 func features(in In, es []edge) []string {
 	m := map[string]bool{}
 	for _, e := range es {
-		if e.Bin == 2 {
+		if e.Bin >= 2 {
 			m["edge-via-second-binary"] = true
 			if e.BinFolded {
 				m["binary-field-folded"] = true
@@ -608,7 +677,7 @@ func features(in In, es []edge) []string {
 // model edges INTO it per architecture. rowCache memoises it per row (the row determines the rendered text).
 type rowInfo struct {
 	dsc   *control.DSC
-	edges [3][]edge // index = position in archs
+	edges map[string][]edge // per build architecture, filled on demand
 }
 
 type parseCache map[string]*rowInfo
@@ -640,10 +709,7 @@ func row(in In, i int, cache parseCache) (*rowInfo, *harnessProblem) {
 	if hp != nil {
 		return nil, hp
 	}
-	ri := &rowInfo{dsc: d}
-	for a, an := range archs {
-		ri.edges[a] = in.edgesInto(i, an)
-	}
+	ri := &rowInfo{dsc: d, edges: map[string][]edge{}}
 	if cache != nil {
 		cache[k] = ri
 	}
@@ -654,15 +720,15 @@ func parse(in In, i int) (*control.DSC, *harnessProblem) {
 	t := in.dscText(i)
 	var d *control.DSC
 	var err error
-	p, msg := mc.Guard(func() { d, err = control.ParseDsc(bufio.NewReader(strings.NewReader(t)), srcName(i)+"_1.0-1.dsc") })
+	p, msg := mc.Guard(func() { d, err = control.ParseDsc(bufio.NewReader(strings.NewReader(t)), in.src(i)+"_1.0-1.dsc") })
 	if p {
 		return nil, &harnessProblem{"ParseDsc panicked on a rendered .dsc: " + msg + "\n" + t}
 	}
 	if err != nil {
 		return nil, &harnessProblem{"ParseDsc rejects a rendered .dsc: " + err.Error() + "\n" + t}
 	}
-	if d.Source != srcName(i) {
-		return nil, &harnessProblem{fmt.Sprintf("ParseDsc: Source = %q, rendered %q", d.Source, srcName(i))}
+	if d.Source != in.src(i) {
+		return nil, &harnessProblem{fmt.Sprintf("ParseDsc: Source = %q, rendered %q", d.Source, in.src(i))}
 	}
 	atomic.AddInt64(&textsParsed, 1)
 	return d, nil
@@ -725,22 +791,24 @@ func (v verdict) violation() *mc.Violation {
 func describe(in In, es []edge) string {
 	var x []string
 	for _, e := range es {
-		x = append(x, fmt.Sprintf("%s<%s(via %s)", srcName(e.From), srcName(e.To), binName(e.From, e.Bin)))
+		x = append(x, fmt.Sprintf("%s<%s(via %s)", in.src(e.From), in.src(e.To), in.bin(e.From, e.Bin)))
 	}
 	return "[" + strings.Join(x, " ") + "]"
 }
 
-var parsedArch = func() map[string]dependency.Arch {
-	m := map[string]dependency.Arch{}
-	for _, a := range archs {
-		p, err := dependency.ParseArch(a)
-		if err != nil {
-			panic(err)
-		}
-		m[a] = *p
+var archCache sync.Map // name -> dependency.Arch
+
+func parsedArch(name string) (dependency.Arch, error) {
+	if v, ok := archCache.Load(name); ok {
+		return v.(dependency.Arch), nil
 	}
-	return m
-}()
+	p, err := dependency.ParseArch(name)
+	if err != nil {
+		return dependency.Arch{}, err
+	}
+	archCache.Store(name, *p)
+	return *p, nil
+}
 
 // check is THE oracle: a plain function of the input (cache only memoises per-row work: ParseDsc of the
 // rendered text and the model edges of that row).
@@ -772,16 +840,18 @@ func prepare(in In, cache parseCache) ([]*rowInfo, *harnessProblem) {
 
 // evaluate runs OrderDSCForBuild (a second time if twice) on the parsed sources in the order in.Perm for in.Arch and judges it.
 func evaluate(scen string, in In, rows []*rowInfo, twice bool) verdict {
-	arch := parsedArch[in.Arch]
-	ai := 0
-	for k, a := range archs {
-		if a == in.Arch {
-			ai = k
-		}
+	arch, aerr := parsedArch(in.Arch)
+	if aerr != nil {
+		return verdict{problem: &harnessProblem{"ParseArch(" + in.Arch + "): " + aerr.Error()}}
 	}
 	var es []edge
 	for i := 0; i < in.N; i++ {
-		es = append(es, rows[i].edges[ai]...)
+		e, ok := rows[i].edges[in.Arch]
+		if !ok {
+			e = in.edgesInto(i, in.Arch)
+			rows[i].edges[in.Arch] = e
+		}
+		es = append(es, e...)
 	}
 	for k := range es {
 		es[k].BinFolded = in.FoldBin[es[k].From] == 1
@@ -800,7 +870,7 @@ func evaluate(scen string, in In, rows []*rowInfo, twice bool) verdict {
 	inNames := func() string {
 		var x []string
 		for _, s := range in.Perm {
-			x = append(x, srcName(s))
+			x = append(x, in.src(s))
 		}
 		return strings.Join(x, ",")
 	}
@@ -812,7 +882,7 @@ func evaluate(scen string, in In, rows []*rowInfo, twice bool) verdict {
 			v := mc.V(scen, clause, in, expected(), o.String(), features(in, es)...)
 			var t strings.Builder
 			for p, s := range in.Perm {
-				fmt.Fprintf(&t, "# input[%d] %s, architecture %s\n%s\n", p, srcName(s), in.Arch, in.dscText(s))
+				fmt.Fprintf(&t, "# input[%d] %s, architecture %s\n%s\n", p, in.src(s), in.Arch, in.dscText(s))
 			}
 			v.Text = t.String()
 			return v
@@ -837,7 +907,7 @@ func evaluate(scen string, in In, rows []*rowInfo, twice bool) verdict {
 		for p, s := range o1.order {
 			found := false
 			for i := 0; i < in.N; i++ {
-				if s == srcName(i) {
+				if s == in.src(i) {
 					found = true
 					if pos[i] != -1 {
 						perm = false
@@ -863,7 +933,7 @@ func evaluate(scen string, in In, rows []*rowInfo, twice bool) verdict {
 				e := e
 				fail("VIOLATION:dependency-built-later", "dependency-built-first", func() string {
 					return fmt.Sprintf("%s before %s (it builds %s, which %s build-depends on for %s); all constraints: %s",
-						srcName(e.From), srcName(e.To), binName(e.From, e.Bin), srcName(e.To), in.Arch, describe(in, es))
+						in.src(e.From), in.src(e.To), in.bin(e.From, e.Bin), in.src(e.To), in.Arch, describe(in, es))
 				}, o1)
 				break
 			}
@@ -1073,11 +1143,13 @@ type scen struct {
 	n, k      int
 	perms     [][]int
 	archSet   []string
-	maxDeps   int  // -1: all graphs; else only graphs with at most that many dependencies
-	decoN     int  // width of the decoration Deviate point (prefix of decos)
-	layout    bool // per-source field-layout Deviate points (spread over fields, 0..7 extra relations per field, their kind, position)
-	oneBinary bool // only graphs in which every source has one binary
-	onlyLay   bool // ONLY field and layout points deviate (decoration, unknown, folding stay default)
+	maxDeps   int               // -1: all graphs; else only graphs with at most that many dependencies
+	decoN     int               // width of the decoration Deviate point (prefix of decos)
+	layout    bool              // per-source field-layout Deviate points (spread over fields, 0..7 extra relations per field, their kind, position)
+	oneBinary bool              // only graphs in which every source has one binary
+	onlyLay   bool              // ONLY field and layout points deviate (decoration, unknown, folding stay default)
+	alias     map[string]string // alphabet audit: names used instead of the default ones
+	extra     []string          // alphabet audit: extra fields written into every .dsc
 }
 
 func explore(r *mc.Run, sc scen) {
@@ -1116,6 +1188,7 @@ func explore(r *mc.Run, sc scen) {
 		ok := true
 		for g := lo; g < hi && ok; g++ {
 			base := graphs[g].expand(n)
+			base.Alias, base.Extra = sc.alias, sc.extra
 			if len(cache) > 8192 {
 				cache = parseCache{} // bound the memory held by memoised parses
 			}
@@ -1242,6 +1315,7 @@ func Run(r *mc.Run) {
 		// n = 4: every graph, every input order, default rendering (plain names: the architecture is irrelevant)
 		explore(r, scen{name: "graphs-n4-k0", n: 4, k: 0, perms: permutations(4), archSet: []string{"amd64"}, maxDeps: -1, decoN: nBasic})
 	}
+	auditScenarios(r)
 	r.Extra["distinct_dsc_texts_parsed_with_ParseDsc"] = atomic.LoadInt64(&textsParsed)
 }
 
@@ -1276,7 +1350,7 @@ func selfCheck(r *mc.Run) {
 			continue
 		}
 		got := ""
-		for _, rl := range decorate(d, "b", "T") {
+		for _, rl := range decorate(d, "b", "T", otherPkg) {
 			if c, ok := rl.chosen(e.arch); ok {
 				got = strings.Replace(rl.Alts[c].Name, otherPkg, "other", 1)
 			}
@@ -1307,10 +1381,10 @@ func selfCheck(r *mc.Run) {
  print join(",",@o),"\n" }`
 	var input strings.Builder
 	var wants []string
-	for d := range decos {
+	for d := range decos[:nStatic] { // (audit words are not in dpkg's architecture table)
 		for _, a := range archs {
 			var txt, want []string
-			for _, rl := range decorate(d, "bin-b1", "bin-c1") {
+			for _, rl := range decorate(d, "bin-b1", "bin-c1", otherPkg) {
 				// Dpkg::Deps needs substvars expanded: substvar alternatives are dropped on both sides
 				var keep rel
 				for _, al := range rl.Alts {
